@@ -126,22 +126,28 @@ Silent == \/ \E i, j \in 1..Len(Ms) : /\ i # j /\ Ms[i].nm = Ms[j].nm /\ Ms[i].n
 Booleans == {"contenteditable", "seamless", "async", "autofocus", "autoplay", "checked", "controls", "defer", "disabled",
              "formnovalidate", "hidden", "ismap", "loop", "multiple", "muted", "novalidate", "readonly", "required", "reversed",
              "selected", "typemustmatch"}
-MapName(syntax, nm, mu) == IF syntax = "jsx" THEN (IF nm = "class" THEN "className" ELSE IF nm = "for" THEN "htmlFor" ELSE nm)
-                           ELSE IF syntax = "vue" /\ nm = "class" /\ mu THEN ":class" ELSE nm          \* jsx rows are not judged for the doubled shorthand (value prefix)
-UpperOf(s) == CASE s = "id" -> "ID" [] s = "class" -> "CLASS" [] s = "className" -> "CLASSNAME" [] s = "t" -> "T" [] s = "d" -> "D"
+MapName(syntax, nm, mu) == IF syntax = "jsx" THEN (IF nm = "class" THEN (IF mu THEN "styleName" ELSE "className") ELSE IF nm = "for" THEN "htmlFor" ELSE nm)
+                           ELSE IF syntax = "vue" /\ nm = "class" /\ mu THEN ":class" ELSE nm
+\* markup.valuePrefix of jsx ("class*" -> styles): the value of the doubled shorthand becomes an expression in object notation
+RECURSIVE WordChars(_, _)
+WordChars(x, i) == i > Len(x) \/ ((IsAlpha(At(x, i)) \/ IsDigit(At(x, i)) \/ At(x, i) \in {"_", "$"}) /\ WordChars(x, i + 1))
+IsPropKey(x) == x # "" /\ (IsAlpha(At(x, 1)) \/ At(x, 1) \in {"_", "$"}) /\ WordChars(x, 2)
+Prefixed(val) == IF IsPropKey(val) THEN "styles." \o val ELSE "styles['" \o val \o "']"
+UpperOf(s) == CASE s = "id" -> "ID" [] s = "class" -> "CLASS" [] s = "className" -> "CLASSNAME" [] s = "styleName" -> "STYLENAME" [] s = "t" -> "T" [] s = "d" -> "D"
                 [] s = "m" -> "M" [] s = "disabled" -> "DISABLED" [] s = "u" -> "U" [] s = "e" -> "E" [] s = "for" -> "FOR"
                 [] s = ":class" -> ":CLASS" [] s = "htmlFor" -> "HTMLFOR" [] s = "g" -> "G" [] s = "h" -> "H" [] s = "k" -> "K" [] s = "type" -> "TYPE" [] s = "name" -> "NAME"
 EmitOne(a, row) ==       \* <<>> when the attribute is dropped, else << [n, q, v] >>; q = NONE: printed without "=" part
     LET hasVal == a.val # NONE /\ a.val # ""
         nm0 == MapName(row.syntax, a.nm, a.mu)
         nm == IF row.upper THEN UpperOf(nm0) ELSE nm0
-        q == IF a.vt = "expr" THEN "{" ELSE IF row.quotes = "single" THEN "'" ELSE "\""
+        pfx == row.syntax = "jsx" /\ a.nm = "class" /\ a.mu /\ hasVal                  \* value prefix applies (a single string token)
+        q == IF a.vt = "expr" \/ pfx THEN "{" ELSE IF row.quotes = "single" THEN "'" ELSE "\""
     IN IF a.im /\ a.vt = "raw" /\ ~hasVal THEN <<>>
        ELSE IF (a.b \/ a.nm \in Booleans) /\ ~hasVal
             THEN IF ~row.compact THEN << [n |-> nm, q |-> q, v |-> nm] >>
                  ELSE IF row.style = "html" THEN << [n |-> nm, q |-> NONE, v |-> ""] >>
                  ELSE << [n |-> nm, q |-> q, v |-> ""] >>
-       ELSE << [n |-> nm, q |-> q, v |-> IF a.val = NONE THEN "" ELSE a.val] >>
+       ELSE << [n |-> nm, q |-> q, v |-> IF a.val = NONE THEN "" ELSE IF pfx THEN Prefixed(a.val) ELSE a.val] >>
 RECURSIVE Emit(_, _)
 Emit(lst, row) == IF lst = <<>> THEN <<>> ELSE EmitOne(Head(lst), row) \o Emit(Tail(lst), row)
 
